@@ -248,26 +248,32 @@ structure POut where
   blocked : List Nat := []
   queued : List Nat := []
 
+/-- `Process` after the first loop: sort, merge, split by known parent, import, second pass, import,
+    prune -/
+def finish (v : Validated) (st1 : St) (ready : List (List BD)) : POut :=
+  if ready.any (·.isEmpty) then { st := st1, events := [], outcome := .panic }
+  else
+    let frags := mergeFrags (sortFrags ready)
+    let next := (frags.filter (headParentKnown st1.known)).flatten
+    let disj := frags.filter (fun f => !headParentKnown st1.known f)
+    let r1 := importAll st1 next
+    match r1.2.2 with
+    | .ok =>
+      let s := second r1.1.known r1.1.fin disj
+      let st3 : St := { r1.1 with disjoint := r1.1.disjoint ++ s.stored }
+      let r2 := importAll st3 s.next
+      match r2.2.2 with
+      | .ok =>
+        { st := removeIrrelevant r2.1, events := r1.2.1 ++ r2.2.1, outcome := .ok,
+          reps := v.reps, blocked := v.blocked, queued := s.queued }
+      | o => { st := r2.1, events := r1.2.1 ++ r2.2.1, outcome := o, queued := s.queued }
+    | o => { st := r1.1, events := r1.2.1, outcome := o }
+
 /-- `FullSyncStrategy.Process` -/
 def process (bad : List Nat) (st : St) (results : List Result) : POut :=
   let v := validateResults bad results
-  let fin0 := st.fin
-  let (st1, ready) := v.valid.foldl (absorb fin0) (st, [])
-  if ready.any (·.isEmpty) then { st := st1, events := [], outcome := .panic }
-  else
-    let ordered := mergeFrags (sortFrags ready)
-    let next := (ordered.filter (headParentKnown st1.known)).flatten
-    let disj := ordered.filter (fun f => !headParentKnown st1.known f)
-    match importAll st1 next with
-    | (st2, ev1, .ok) =>
-      let s := second st2.known st2.fin disj
-      let st3 : St := { st2 with disjoint := st2.disjoint ++ s.stored }
-      match importAll st3 s.next with
-      | (st4, ev2, .ok) =>
-        { st := removeIrrelevant st4, events := ev1 ++ ev2, outcome := .ok,
-          reps := v.reps, blocked := v.blocked, queued := s.queued }
-      | (st4, ev2, o) => { st := st4, events := ev1 ++ ev2, outcome := o, queued := s.queued }
-    | (st2, ev1, o) => { st := st2, events := ev1, outcome := o }
+  let acc := v.valid.foldl (absorb st.fin) (st, [])
+  finish v acc.1 acc.2
 
 /-! ### histories -/
 
